@@ -141,7 +141,7 @@ type atomicFault struct {
 // WriteFileAtomic / MarshalAndSaveProtobuf for one (old, new) content pair.
 func execAtomic(plan *simkit.Plan) *simkit.Result {
 	res := simkit.RunPlain(plan, func(s *simkit.Sim) {
-		dir, err := os.MkdirTemp("/dev/shm", "verif-atomic-")
+		dir, err := simkit.MkdirTemp("/dev/shm", "verif-atomic-")
 		if err != nil {
 			panic(err)
 		}
@@ -349,7 +349,7 @@ func genHousekeeping(p *simkit.Plan, r *simkit.Rand, tier string) {
 func execHousekeeping(t *testing.T, plan *simkit.Plan) *simkit.Result {
 	var nontrivial bool
 	res := simkit.Run(t, plan, simkit.Options{MaxSteps: 1000, Horizon: 400 * 24 * time.Hour}, func(s *simkit.Sim) {
-		base, err := os.MkdirTemp("/dev/shm", "verif-housekeeping-")
+		base, err := simkit.MkdirTemp("/dev/shm", "verif-housekeeping-")
 		if err != nil {
 			panic(err)
 		}
